@@ -61,6 +61,21 @@ def _(c):
     c.ens("norecord_keeps_xn", "implies(not truthy(record_duplicate_data), self.Xn == old(self.Xn))")
     c.ens("points_kept", "count_true(self.X_flag) >= old(count_true(self.X_flag))")
     c.ens("wf", WF)
+    # ---- what the log holds afterwards (C12, used by C04/C19) ------------------------------------------------------
+    c.ens("no_noise_always_new_row", "implies(truthy(record_duplicate_data) and not truthy(self.he_noise_flag), self.Xn == old(self.Xn) + 1)",
+          props=["C04", "C12", "C19"])
+    c.ens("new_row_is_the_observation", "implies(self.Xn == old(self.Xn) + 1, pteq(row(self.X, self.Xn), pt(x)) and "
+          "pteq(row(self.X_orig, self.Xn), invt(pt(x))) and self.Y[self.Xn][0] == result[0] and self.Y_orig[self.Xn][0] == result[0] and result[2] == self.Xn)",
+          top=True, props=["C04", "C12", "C19"])
+    c.ens("earlier_points_never_change", "forall(old(self.Xn) + 1, lambda i: pteq(row(self.X, i), row(old(self.X), i)) "
+          "and pteq(row(self.X_orig, i), row(old(self.X_orig), i)))", top=True, props=["C04", "C12", "C19", "C01"])
+    c.ens("earlier_values_kept", "implies(self.Xn == old(self.Xn) + 1, forall(old(self.Xn) + 1, lambda i: "
+          "self.Y[i][0] == old(self.Y)[i][0] and self.Y_orig[i][0] == old(self.Y_orig)[i][0]))",
+          top=True, props=["C04", "C12", "C19"])
+    c.ens("norecord_keeps_log", "implies(not truthy(record_duplicate_data), self.Xn == old(self.Xn) and same(self.X, old(self.X)) and same(self.X_orig, old(self.X_orig)) "
+          "and same(self.Y, old(self.Y)) and same(self.Y_orig, old(self.Y_orig)) and forall(self.Xn + 1, lambda i: pteq(row(self.X, i), row(old(self.X), i)) "
+          "and pteq(row(self.X_orig, i), row(old(self.X_orig), i))))", top=True, props=["C04", "C12", "C19", "C05"])
+    c.ens("he_flag_kept", "truthy(self.he_noise_flag) == truthy(old(self.he_noise_flag))")
     # ---- exceptional exits (C10): the target's own exception, or ValueError for an invalid value -----------------------
     XENS = {"not_counted": "self.func_count == old(self.func_count)", "calls": "ghost.n_calls >= old(ghost.n_calls) and ghost.n_calls <= old(ghost.n_calls) + 1",
             "xn": "self.Xn == old(self.Xn) and count_true(self.X_flag) == old(count_true(self.X_flag))"}
@@ -91,7 +106,8 @@ def _(c):
     c.ens("xn_monotone", "self.Xn >= old(self.Xn) and self.Xn <= old(self.Xn) + 1")
     c.ens("norecord_keeps_log", "implies(not truthy(record_duplicate_data), self.Xn == old(self.Xn) and same(self.X, old(self.X)) and "
           "same(self.X_orig, old(self.X_orig)) and same(self.Y, old(self.Y)) and same(self.Y_orig, old(self.Y_orig)) and same(self.X_flag, old(self.X_flag)) "
-          "and result[0] == fval_orig)", top=True, props=["C12"])
+          "and result[0] == fval_orig and forall(self.Xn + 1, lambda i: pteq(row(self.X, i), row(old(self.X), i)) and pteq(row(self.X_orig, i), row(old(self.X_orig), i))))",
+          top=True, props=["C12"])
     c.ens("points_kept", "count_true(self.X_flag) >= old(count_true(self.X_flag))")
     c.ens("new_point_recorded", "implies(self.Xn == old(self.Xn) + 1, "
           "forall(self.D, lambda j: self.X[self.Xn][j] == x[j] and self.X_orig[self.Xn][j] == x_orig[j]) and self.Y[self.Xn][0] == fval_orig "
@@ -103,6 +119,11 @@ def _(c):
           "and self.n_evals[i][0] == old(self.n_evals)[i][0]))", top=True, props=["C12"])
 
 
+    c.ens("no_noise_always_new_row", "implies(truthy(record_duplicate_data) and isnone(fsd), self.Xn == old(self.Xn) + 1)", props=["C04", "C12", "C19"])
+    c.ens("new_row_points", "implies(self.Xn == old(self.Xn) + 1, pteq(row(self.X, self.Xn), pt(x)) and pteq(row(self.X_orig, self.Xn), pt(x_orig)))",
+          props=["C04", "C12", "C19"])
+    c.ens("earlier_rows_points_kept", "forall(old(self.Xn) + 1, lambda i: "
+          "pteq(row(self.X, i), row(old(self.X), i)) and pteq(row(self.X_orig, i), row(old(self.X_orig), i)))", props=["C04", "C12", "C19"])
     c.ens("partial_coincidence_never_alters_other_records",
           "implies(truthy(record_duplicate_data) and self.Xn == old(self.Xn), forall(rows(old(self.X)), lambda i: implies("
           "exists(self.D, lambda j: old(self.X)[i][j] != x[j]), self.Y[i][0] == old(self.Y)[i][0] and self.Y_orig[i][0] == old(self.Y_orig)[i][0] "
@@ -127,5 +148,7 @@ def _(c):
     c.ens("prefix_preserved", "forall(rows(old(self.X)), self.D, lambda i, j: self.X[i][j] == old(self.X)[i][j] and self.X_orig[i][j] == old(self.X_orig)[i][j]) and "
           "forall(rows(old(self.X)), lambda i: self.Y[i][0] == old(self.Y)[i][0] and self.Y_orig[i][0] == old(self.Y_orig)[i][0] and "
           "self.n_evals[i][0] == old(self.n_evals)[i][0] and self.X_flag[i] == old(self.X_flag)[i])", top=True, props=["C12"])
+    c.ens("prefix_points_preserved", "forall(rows(old(self.X)), lambda i: pteq(row(self.X, i), row(old(self.X), i)) and pteq(row(self.X_orig, i), row(old(self.X_orig), i)))",
+          props=["C04", "C12", "C19"])
     c.ens("new_rows_unflagged", "forall(rows(self.X), lambda i: implies(i >= rows(old(self.X)), not self.X_flag[i] and self.n_evals[i][0] == 0))", props=["C12"])
     c.ens("count_kept", "count_true(self.X_flag) == old(count_true(self.X_flag))")
